@@ -34,7 +34,7 @@ def run(res, tier, replay):
             seen = set(); dts = {}
             for k, m in enumerate(c.members):
                 m.name = b"m%d_%s.%s" % (k, bytes(rng.choice(b"abcXY") for _ in range(3)), rng.choice([b"txt", b"bin", b"TXT"]))
-                m.attribs = rng.choice([0x20, 0x01, 0x40, 0x41, 0x21, 0x61, 0x00, 0x60]); m.date, m.time, dts[m.name] = valid_dt(rng)
+                m.attribs = [0x41, 0x01, 0x40, 0x20, 0x21, 0x61, 0x00, 0x60][(k + i) % 8] if k < 8 else rng.choice([0x20, 0x01, 0x40, 0x41, 0x21, 0x61, 0x00, 0x60]); m.date, m.time, dts[m.name] = valid_dt(rng)
             if any(f.method[0] == "qtm" and f.method[1] < 15 for f in c.folders): continue
             # a further folder with an empty member between two others (its test digest must be that of the empty string, not a leftover)
             if not isset:
@@ -43,7 +43,7 @@ def run(res, tier, replay):
                 c.folders.append(xf); c.members.extend(xf.members)
                 for k, m in enumerate(c.members):
                     m.name = b"m%d_%s.%s" % (k, bytes(rng.choice(b"abcXY") for _ in range(3)), rng.choice([b"txt", b"bin", b"TXT"]))
-                    if m.name not in dts: m.attribs = 0x20; m.date, m.time, dts[m.name] = valid_dt(rng)
+                    if m.name not in dts: m.attribs = [0x41, 0x01, 0x40, 0x20, 0x21, 0x61, 0x00, 0x60][k % 8]; m.date, m.time, dts[m.name] = valid_dt(rng)
             work = os.path.join(base, "w%d" % i); os.makedirs(work)
             if isset:
                 for f in c.folders: f.blocks = f.blocks
